@@ -1,120 +1,73 @@
-NOTES = "Contract-based deductive verification of the real code (see DESIGN.md). Exit codes: 0 held, 1 violation (+VIOLATION line), 3 checker error."
+NOTES = ("Contract-based deductive verification of the real code (see DESIGN.md, section A for what is discharged and what is bounded). "
+         "pyvc re-reads the functions from /repo on every run, generates verification conditions from their AST against sidecar contracts and discharges them with z3 / cvc5. "
+         "Exit codes: 0 held, 1 violation (+VIOLATION line), 3 checker error (never with a VIOLATION line).")
 NOT_APPLICABLE = {
     "C19": "quantifies over thread schedules; function-modular contracts over sequential semantics cannot express or decide interleavings, and no installed deductive tool for Python adds them (DESIGN.md section 6, C19)",
 }
+B = " Bounded stand-ins are reported under coverage.bounded and never counted as proved."
+T = "trusted: pyvc VC generator (Python-subset semantics, DESIGN 2.2/A.3), z3 5.1 / cvc5 1.0.3 answers, models of built-ins and externals in pyvc/pybuiltins.py and contracts/trusted.py; "
+
+
+def e(category, technique, text, note):
+    return dict(category=category, technique=technique, text=text + B, note=T + note)
+
+
 CHECKS = {
-    "C06": dict(
-        category="proof",
-        technique="contracts + loop invariants on getrandbytes/getrandstr discharged by z3/cvc5 (pyvc); bijection lemma; bounded exhaustive stand-in",
-        text="getrandbytes/getrandstr are proved, for every count and every value of the single rng draw, to return exactly the base-256/base-L digits of that draw (loop invariants over the real source); the digit step map is proved bijective, so a uniform draw yields a uniform output of the declared size and alphabet. Salt/key generators are checked to delegate to these helpers.",
-        note="trusted: pyvc VC generator, z3/cvc5, rng range contracts (random.Random), induction over n of the digits bijection argued on paper (step mechanised); float-based entropy->length in passlib.pwd is bounded only",
-    ),
-    "C11": dict(
-        category="proof",
-        technique="ghost lock-step contracts on MD4 compression and Salsa20/8 (BV64 + no-overflow obligations), DES key conversion, scrypt.validate, discharged by z3; bounded stand-in vs independent references for DES/bcrypt/ROMix/HMAC/PBKDF/SASLprep",
-        text="MD4's compression function and Salsa20/8 are proved equal to RFC 1320 / RFC 7914 for every state and block by per-step cut points over the real source; DES 7<->8 byte key conversion, scrypt parameter validation are proved for all integers. The table-driven DES rounds, the bcrypt core, ROMix, HMAC/PBKDF1/2 and SASLprep are compared with independent references on stated bounds (never counted as proved).",
-        note="trusted: pyvc, z3/cvc5, struct unpack model, RFC transcriptions in /verif/specs; digests from hashlib; bounded parts are bounded",
-    ),
-    "C12": dict(
-        category="proof",
-        technique="contracts on the real chunk codecs and integer codecs executed symbolically per shape, round-trip lemmas over the 24-bit group definition, z3/cvc5; bounded exhaustive stand-in",
-        text="Every chunk encoder/decoder of Base64Engine (and libpass' copies) is proved equal to the 24-bit group definition for all byte values on every shape chunks<=2 x tail, integer codecs (12/24/30/64 bit, both bit orders) for all integers including refusals, and decode.encode = id as lemmas; the real engines are additionally run on every 1-/2-byte group and compared with stdlib base64.",
-        note="trusted: pyvc, z3/cvc5, stream-map meta-rule (per-iteration independence) for chunk counts > 2, abstract charmap with dec(enc(i)) = i; stdlib wrappers (b64s/ab64/b32) bounded only",
-    ),
-    "C13": dict(
-        category="proof",
-        technique="contracts on TOTP._generate / generate / normalize_token discharged by z3/cvc5 (dynamic truncation, decimal rendering abstraction); bounded stand-in vs RFC reference",
-        text="TOTP._generate is proved to return RFC 4226's dynamic truncation of the HMAC value modulo 10^digits, zero padded to exactly `digits` characters, for every counter, every digest of 20..64 bytes and digits 6..10; generate() uses counter floor(time/period) and reports the validity interval. Key text forms, float/datetime times and HMAC itself are covered by the bounded stand-in / C11.",
-        note="trusted: pyvc incl. the decimal-rendering meta-rule, z3/cvc5, struct model, HMAC abstract",
-    ),
-    "C14": dict(
-        category="proof",
-        technique="contracts on TOTP.match/_find_match with loop invariant (earliest match) and an uninterpreted counter->token map, discharged by z3; exhaustive small-domain stand-in",
-        text="For all integer time/skew/window/period/last_counter and any token function, match() is proved to search exactly the stated counter range, return the earliest matching counter later than the last used one, raise UsedTokenError/InvalidTokenError/MalformedTokenError exactly in the stated cases and fill TotpMatch correctly; accepted counters strictly increase when fed back.",
-        note="trusted: pyvc, z3 (quantifier instantiation for the 'no earlier match' invariant), consteq == equality; induction over the history argued from the proved two-call step",
-    ),
-    "C01": dict(
-        category="other",
-        technique='contracts checked on the real hash/verify over a stated finite grid (bounded stand-in); proof part pending',
-        text="Every registered hasher (+ prefix wrappers, disabled hashers, libpass hashers) is run over a grid of passwords x settings x context keywords: ASCII result, identify, verify True for text and bytes, False for >= 20 near misses outside the tabulated equivalences. bounded stand-in: the property's contracts are evaluated on the real functions over the finite domains stated in the evidence (coverage.bounded); labelled bounded, never counted as proved",
-        note='trusted: digest primitives, equivalence table transcribed from the format documentation; collision resistance for the negative direction',
-    ),
-    "C02": dict(
-        category="other",
-        technique='comparison with independent reference implementations written from the published specifications, crypt(3), Django, bcrypt, hashlib.scrypt (bounded stand-in)',
-        text='Both directions (passlib output == reference output; reference/crypt(3)/Django strings verify under passlib) for ~85 formats over the length/salt/cost grid of the property statement. Foreign code (libcrypt, OpenSSL, bcrypt) cannot be put under contract, so this property is decided by the bounded comparison.',
-        note='trusted: the references in /verif/specs (self-tested against RFC vectors / crypt(3)), hashlib, legacycrypt, Django, bcrypt',
-    ),
-    "C03": dict(
-        category="other",
-        technique='every ordered pair of loadable backends compared on enumerated inputs; switching sequences (bounded stand-in)',
-        text='Each advertised backend the host demonstrably supports must be reported, selectable and agree with every other backend and with an independent oracle; backend switching sequences must not disturb other hashers. Equality with libcrypt/OpenSSL/bcrypt-C is foreign code, hence bounded.',
-        note='trusted: host probes (crypt(3) test vectors), independent oracles',
-    ),
-    "C04": dict(
-        category="other",
-        technique='contracts on rounds-policy arithmetic, verify_and_update, identify_record, libpass CryptContext discharged by z3 (pyvc) + generated configurations vs a policy oracle',
-        text="Rounds clipping, variation range, fresh-cost-never-stale, needs_update arithmetic, verify_and_update's outcome shape, first-claimant identification (<= 3 schemes) and the libpass context are verified from the real source for all integers / None combinations; refuted obligations correspond to recorded known findings (bsdi_crypt odd rounds, duplicate libpass scheme), so the run is reported at level 'other'. Context-level option inheritance is compared with a policy oracle on ~3000 generated configurations.",
-        note='trusted: pyvc, z3, rng.randint range contract, float vary_rounds bounded only',
-    ),
-    "C05": dict(
-        category="other",
-        technique='contracts checked on the real hashers over boundary-length multi-byte passwords, 4095/4096/4097 and NUL positions (bounded stand-in); proof part pending',
-        text="Truncating hashers x truncate_error on/off (hasher and context level) x byte lengths limit-1/limit/limit+1 built from 1-4 byte characters x str/bytes; every hasher at 4095/4096/4097; NUL at every position <= 16 for crypt-compatible formats. bounded stand-in: the property's contracts are evaluated on the real functions over the finite domains stated in the evidence (coverage.bounded); labelled bounded, never counted as proved",
-        note='trusted: digest primitives; PASSLIB_MAX_PASSWORD_SIZE unset (4096)',
-    ),
-    "C07": dict(
-        category="other",
-        technique='parse/render round trips over generated hashes of every hasher, libpass inspect/PHC records (bounded stand-in); proof part pending',
-        text="from_string/to_string fixpoints, parsed settings == settings used, canonical forms (hex case, padding bits), config-only forms, prefix wrappers, libpass inspect_* and PHC records over generated field values. bounded stand-in: the property's contracts are evaluated on the real functions over the finite domains stated in the evidence (coverage.bounded); labelled bounded, never counted as proved",
-        note='trusted: regex engine, stdlib codecs',
-    ),
-    "C08": dict(
-        category="other",
-        technique='single-edit neighbours of valid hashes and arbitrary strings through identify/verify/needs_update of every hasher and CryptContext (bounded stand-in); proof part pending',
-        text="~100k mutants (substitution from a hostile alphabet, deletion, insertion, truncation, separators, numbers) x str/bytes: identify never raises, verify/needs_update answer or raise ValueError/TypeError, an altered digest or setting never verifies unless it decodes to the same bits. bounded stand-in: the property's contracts are evaluated on the real functions over the finite domains stated in the evidence (coverage.bounded); labelled bounded, never counted as proved",
-        note='trusted: second-preimage resistance of the digests',
-    ),
-    "C09": dict(
-        category="other",
-        technique='contracts on norm_integer and HasRounds.using (all None/int/string combinations, frame: no write outside the fresh subclass) discharged by z3/cvc5 (pyvc) + option grids on all hashers',
-        text="norm_integer (strict refusal / relaxed clamping) and HasRounds.using are verified from the real source: aliases exclusive, hard limits respected, policy invariant established, parent class never written. The inductive form (derive from derived) is refuted in the witness class of the recorded known finding, so the run is reported at level 'other'. All other using() overrides are exercised by the bounded stand-in.",
-        note='trusted: pyvc, z3/cvc5, MinimalHandler.using returns a fresh subclass, int(str) model',
-    ),
-    "C10": dict(
-        category="other",
-        technique='export/import equality and failed-change invariance on generated configurations, raising hasher at k-th call (bounded stand-in); proof part pending',
-        text="to_dict/to_string/copy/update round trips compared on exported configuration and decisions; 35 kinds of invalid change at every position and a custom hasher raising at call k: state identical afterwards. bounded stand-in: the property's contracts are evaluated on the real functions over the finite domains stated in the evidence (coverage.bounded); labelled bounded, never counted as proved",
-        note='trusted: configparser',
-    ),
-    "C15": dict(
-        category="other",
-        technique='round trips through uri/json/dict over hostile labels and class defaults; corrupted sources (bounded stand-in); proof part pending',
-        text="8 TOTP classes x keys x algorithms x digits x periods x hostile labels/issuers x three formats x three load paths; corrupted sources must raise ValueError. Wallet AES path skipped (cryptography not installed). bounded stand-in: the property's contracts are evaluated on the real functions over the finite domains stated in the evidence (coverage.bounded); labelled bounded, never counted as proved",
-        note='trusted: urllib quoting, json',
-    ),
-    "C16": dict(
-        category="other",
-        technique='all operation sequences up to a bound over small alphabets vs an independent reader (bounded stand-in); proof part pending',
-        text="Both file classes: every operation sequence of length <= 2-3 (quick) over 19-35 operations from 5 initial files, sampled longer sequences, autosave, encodings, str/bytes; after each step an independent reader must see exactly the model's users once each. bounded stand-in: the property's contracts are evaluated on the real functions over the finite domains stated in the evidence (coverage.bounded); labelled bounded, never counted as proved",
-        note='trusted: the 10-line independent reader in /verif/specs/ht_reader.py',
-    ),
-    "C17": dict(
-        category="other",
-        technique='every exported context x every scheme x generated hashes; registry names (bounded stand-in); proof part pending',
-        text="34 shipped contexts: a hash of each scheme (all idents/variants) is attributed to that scheme and verifies; all 76 registry names load a hasher of that name and passlib.hash.<name> is the same object. bounded stand-in: the property's contracts are evaluated on the real functions over the finite domains stated in the evidence (coverage.bounded); labelled bounded, never counted as proved",
-        note='trusted: host crypt() determines the host-dependent lists',
-    ),
-    "C18": dict(
-        category="proof",
-        technique='contracts on unix_disabled / django_disabled (identify, verify, hash, disable, enable) and CryptContext verify/enable/disable/is_enabled discharged by cvc5/z3 string theory (pyvc) + lemma enable(disable(h)) == h',
-        text='For arbitrary strings: a disabled string is identified, never verifies for any password, disabling twice stays disabled, enable returns exactly the embedded original and refuses a bare marker; CryptContext.verify(hash=None) is False after exactly one dummy verification; context enable/disable/is_enabled delegate as stated. Contexts x originals x sequences are additionally swept by the bounded stand-in.',
-        note='trusted: pyvc, cvc5/z3, MAX_PASSWORD_SIZE == 4096, ASCII model of bytes hashes',
-    ),
-    "C20": dict(
-        category="other",
-        technique='cross verification passlib <-> libpass on grids, identify-own-format, needs_update, libpass context (bounded stand-in; libpass context contracts are proved under C04)',
-        text="Six formats x passwords x non-empty salts x costs: each direction of verification, equal digests, independent oracle, identify exactly own format, needs_update, scheme lists of length 1..3. bounded stand-in: the property's contracts are evaluated on the real functions over the finite domains stated in the evidence (coverage.bounded); labelled bounded, never counted as proved",
-        note='trusted: bcrypt, hashlib, base64',
-    ),
+    "C01": e("proof", "contracts on GenericHandler.hash/verify over an abstract handler + round-trip lemma, PrefixWrapper wrap/unwrap inverse, libpass own-format rendering, discharged by z3/cvc5; bounded grid over all hashers",
+             "hash(secret) == render(settings, calc(settings, secret)) and verify(secret, h) == (calc(parse_settings(h), secret) == parse_checksum(h)) are proved from the real bodies, so verify(s, hash(s)) is True and a different password verifies only on a digest collision, given the per-format obligations H1 (parse o render: C07) and H2 (deterministic checksum); wrapped hashers inherit it through the proved wrap/unwrap inverse. Every registered hasher is additionally swept (>= 20 near misses per case).",
+             "H1/H2 handler obligations, consteq == equality, collision resistance; documented equivalences tabulated from the format documentation"),
+    "C02": e("other", "bounded comparison with independent reference implementations / crypt(3) / Django / bcrypt / hashlib.scrypt; thorough tier adds the discharged SHA-crypt schedule proof (ghost lock-step vs Drepper's recurrence, cvc5/z3)",
+             "Foreign code cannot be put under contract, so the property is decided by comparing ~85 formats in both directions with independent implementations on the statement's grid. In the thorough tier passlib's _raw_sha2_crypt (both variants) and libpass' _sha_crypt are proved, hash abstract, to compute the published SHA-crypt algorithm for every password, salt and round count.",
+             "references in /verif/specs self-tested against RFC vectors and crypt(3); hashlib, legacycrypt, Django, bcrypt as oracles; abstract hash object contract"),
+    "C03": e("other", "bounded: every ordered pair of loadable backends, switching sequences, independent oracles; proved core: BackendMixin.set_backend/has_backend state contract and bcrypt builtin loader typestate (z3)",
+             "Agreement with libcrypt / OpenSSL / bcrypt-C is foreign code: decided by the bounded pairwise comparison. Proved from the real source: a successful non-dry set_backend installs the requested backend, has_backend never changes it, pending markers are restored on every exit path, unavailable backends raise MissingBackendError; bcrypt's pure-python loader binds the routine its checksum code calls.",
+             "host probes (crypt(3) vectors), loaders return True/False or raise the documented errors, sequential execution"),
+    "C04": e("other", "contracts on rounds-policy arithmetic, verify_and_update, identify_record, libpass CryptContext discharged by z3 (pyvc) + generated configurations vs a policy oracle",
+             "Clipping, variation range, fresh-cost-never-stale, needs_update arithmetic, verify_and_update's outcome shape, first-claimant identification (<= 3 schemes) and the libpass context are proved for all integers / None combinations; the only refuted obligations are the 'inside the recorded witness class' halves of two known findings (bsdi_crypt odd rounds above an even maximum, duplicate libpass scheme), hence evidence level 'other'. Option inheritance across categories is compared with a policy oracle on ~3000 generated configurations.",
+             "rng.randint range contract; float vary_rounds bounded only"),
+    "C05": e("proof", "contracts on _check_truncate_policy, validate_secret, the truncating _calc_checksum bodies and bcrypt's _norm_digest_args discharged by z3/cvc5 (string theory) + boundary-length stand-in",
+             "The truncation policy raises exactly when truncate_error is set and the BYTE length exceeds the limit, and every call site hands it the encoded password (text counted in bytes); validate_secret refuses more than 4096; bcrypt checks size, truncation policy and NUL in that order and the backend sees the first 72 bytes. Dependence on every byte and NUL refusal of the raw crypt routines are swept on the real hashers.",
+             "utf-8 as an injective uninterpreted function with length bounds; MAX_PASSWORD_SIZE == 4096"),
+    "C06": e("proof", "contracts + loop invariants on getrandbytes/getrandstr discharged by z3/cvc5 (pyvc); bijection lemma; _norm_scheme_option refuses salt; exhaustive small-domain stand-in",
+             "getrandbytes/getrandstr are proved, for every count and every value of the single rng draw, to return exactly the base-256/base-L digits of that draw; the digit step map is proved bijective, so a uniform draw yields a uniform output of the declared size and alphabet; a CryptContext option named salt is refused whatever its type. Salt generators of all hashers, TOTP.new and pwd entropy are swept.",
+             "rng range contracts; induction over n of the digits bijection argued from the mechanised step; float entropy arithmetic bounded only"),
+    "C07": e("proof", "contracts on parse_mc2/parse_mc3/render_mc2/render_mc3 + round-trip lemma and libpass PHC definition choice discharged by cvc5/z3 (strings); parse/render stand-in over all hashers",
+             "The modular-crypt helpers are proved to be inverse on '$'-free fields (unique decomposition by the solver, zero-padded rounds refused, decimal conversion round trip); libpass' PHC parser selects a definition only on an exact version match. Regex-based formats, config strings and libpass inspect records are swept.",
+             "int.to.str semantics of the solvers; regex-based parsers bounded only"),
+    "C08": e("proof", "exception-frame contracts on from_string/identify/needs_update of every concrete handler class (arbitrary str / ASCII bytes input) discharged by z3/cvc5 + ~100k mutated hashes stand-in",
+             "For 53 parser bodies (262 contracts) every path that leaves the function raises only ValueError/TypeError subclasses (identify returns a bool): no IndexError, KeyError, AttributeError, AssertionError; sha-crypt's parser repairs out-of-range salt/rounds only for config strings. 'An altered digest never verifies' is swept with single-edit mutants of valid hashes.",
+             "regex engine and codec models over-approximate; constructors raise only ValueError/TypeError; 8 contracts (htdigest, scram, sun_md5_crypt) undecided and covered by the stand-in only"),
+    "C09": e("other", "contracts on norm_integer, HasRounds.using (frame: writes only to the fresh subclass), HasSalt._norm_salt, TruncateMixin.using discharged by z3/cvc5 + option grids on all hashers",
+             "Strict refusal / relaxed clamping, alias exclusivity, hard limits, the policy invariant of the derived class and the frame (parent never written) are proved for all None/int/string combinations; the refuted obligations are the 'inside the recorded witness class' half of the chained-using known finding, hence evidence level 'other'. Remaining using() overrides are exercised on 74 hashers.",
+             "MinimalHandler.using returns a fresh subclass; int(str) model"),
+    "C10": e("proof", "exception-atomicity contract on CryptContext.load (every fallible step may raise) + _norm_scheme_option, discharged by z3; export/import stand-in",
+             "Every exceptional exit of load() is proved to occur before the first write to the context, a successful load installs the new config and resets the dummy-verify cache exactly once, an empty update returns before any write. Export/import equality and 35 kinds of failed change are swept on generated configurations.",
+             "_CryptConfig(source) writes only fresh objects (frame of using(): C09)"),
+    "C11": e("proof", "ghost lock-step contracts on MD4 compression and Salsa20/8 (64-bit vectors with no-overflow obligations), md4 padding, HMAC == RFC 2104 over an abstract hash, DES key conversion, scrypt.validate, discharged by z3; references stand-in",
+             "MD4's compression function, Salsa20/8, MD4 padding, compile_hmac, the 7<->8 byte DES key conversion and scrypt parameter validation are proved against RFC 1320 / 7914 / 2104 for all inputs. The table-driven DES rounds, bcrypt core, ROMix, PBKDF1/2 and SASLprep are compared with independent references on stated bounds.",
+             "struct models; abstract hash object; RFC transcriptions in /verif/specs"),
+    "C12": e("proof", "contracts on the chunk codecs (per shape, all byte values) and integer codecs + round-trip lemmas discharged by z3; exhaustive 1-/2-byte stand-in",
+             "Every chunk encoder/decoder of Base64Engine (and libpass' copies) is proved equal to the 24-bit group definition on every shape chunks <= 2 x tail; integer codecs (12/24/30/64 bit, both bit orders) for all integers incl. refusals; decode . encode = id as lemmas. Real engines are run on every 1-/2-byte group and against stdlib base64.",
+             "stream-map meta-rule for more than two chunks; abstract charmap with dec(enc(i)) = i; stdlib wrappers bounded only"),
+    "C13": e("proof", "contracts on TOTP._generate / generate / normalize_token discharged by z3/cvc5; RFC reference stand-in",
+             "TOTP._generate is proved to return RFC 4226's dynamic truncation modulo 10^digits, zero padded to exactly `digits` characters, for every counter, every 20..64 byte digest and digits 6..10; generate() uses floor(time/period) and reports the validity interval. HMAC itself is proved under C11; key text forms and date-times are swept.",
+             "decimal-rendering meta-rule; struct model"),
+    "C14": e("proof", "contracts on TOTP.match/_find_match with loop invariant (earliest match) over an uninterpreted counter->token map, discharged by z3; exhaustive small-domain stand-in",
+             "For all integer time/skew/window/period/last_counter and any token function, match() searches exactly the stated range, returns the earliest matching counter later than the last used one, raises Used/Invalid/Malformed exactly in the stated cases and fills TotpMatch correctly; accepted counters strictly increase when fed back.",
+             "quantifier instantiation by z3 for the 'no earlier match' invariant; consteq == equality"),
+    "C15": e("other", "field-preservation contracts on to_dict/_to_uri_params with symbolic class defaults, _adapt_dict_kwds, discharged by z3/cvc5 + round-trip stand-in",
+             "Outside the recorded witness class every field is proved to survive serialisation (value in the output, else the class default, equals the instance value); the obligations inside that class are refuted = the known class-default elision finding, hence evidence level 'other'. URI quoting of hostile labels and corrupted sources are swept.",
+             "loading through the same class; urllib/json inverse pairs; wallet AES skipped (cryptography absent)"),
+    "C16": e("proof", "ghost-view invariant contracts on _set_record / delete / set_hash (maps as arrays, _source as ghost multiset, skolem key) and _encode_field, discharged by z3/cvc5; operation-sequence stand-in",
+             "Each current key has exactly one source entry and no key more than one, preserved by the record-changing operations for an arbitrary key; names with separators, control characters or more than 255 bytes are refused. _load_lines/_iter_lines loops and whole edit histories are explored up to a bound against an independent reader.",
+             "_source abstracted by its multiset of record entries; _autosave only reads the state"),
+    "C17": e("proof", "finite complete execution of the real _init_htpasswd_context / _init_default_schemes on all 2^7 x 2 hosts, scheme-list literals, registry locations, shared-cache immutability; context attribution stand-in",
+             "The htpasswd context is computed by the real code for every possible crypt() support set: catch-all last, default listed, no duplicates; every shipped literal scheme list keeps catch-alls last; every registry name is defined where _locations points; the shared os_crypt scheme cache is an immutable tuple. Hashes of every scheme are attributed through all 34 contexts.",
+             "catch-all set {plaintext, ldap_plaintext}; get_supported_os_crypt_schemes returns a sub-tuple of os_crypt_schemes"),
+    "C18": e("proof", "contracts on unix_disabled / django_disabled and CryptContext verify/enable/disable/is_enabled/load discharged by cvc5/z3 string theory + lemma enable(disable(h)) == h",
+             "For arbitrary strings: a disabled string is identified, never verifies, disabling twice stays disabled, enable returns exactly the embedded original and refuses a bare marker; CryptContext.verify(hash=None) is False after exactly one dummy verification and the dummy cache follows the configuration. Contexts x originals x sequences are swept.",
+             "MAX_PASSWORD_SIZE == 4096; ASCII model of bytes hashes"),
+    "C20": e("other", "bounded cross verification passlib <-> libpass; proved: libpass CryptContext contracts (quick) and, in the thorough tier, both SHA-crypt cores against one published schedule",
+             "Six formats x passwords x salts x costs: each direction of verification, equal digests, independent oracle, identify exactly own format, needs_update. The libpass context is proved to hash with its first scheme, verify with any and ask for an update exactly for foreign formats (outside the duplicate-scheme known finding); the thorough tier proves both SHA-crypt implementations compute the same published algorithm.",
+             "bcrypt, hashlib, base64 as oracles; abstract hash object contract"),
 }
